@@ -35,6 +35,7 @@ class World:
         self.keep = []                          # keep every object alive (ids stay unique)
         self.outer_handles = []                 # every stored outer pin ever seen: (obj, inst label, pin label)
         self._oh_seen = set()
+        self.guard = None                       # optional vetoing listener (registered before any recorder)
 
     def reg(self, kind, label, obj):
         self.objs[kind][label] = obj
@@ -112,6 +113,113 @@ def arrange_veto(world, op):
     return sib.name
 
 
+COMPOUND = ("createPins", "createWires", "createPortPins", "createCableWires")
+
+
+def expand(op):
+    """the primitive model calls a compound constructor consists of, in the order the implementation makes them"""
+    t = op["t"]
+    if t == "createPins":
+        return [{"t": "addPin", "p": op["p"], "q": q, "pos": None, "create": True} for q in op["qs"]]
+    if t == "createWires":
+        return [{"t": "addWire", "c": op["c"], "w": w, "pos": None, "create": True} for w in op["ws"]]
+    if t == "createPortPins":
+        return [{"t": "addPort", "d": op["d"], "p": op["p"], "pos": None, "create": True}] + \
+               [{"t": "addPin", "p": op["p"], "q": q, "pos": None, "create": True} for q in op["qs"]]
+    if t == "createCableWires":
+        return [{"t": "addCable", "d": op["d"], "c": op["c"], "pos": None, "create": True}] + \
+               [{"t": "addWire", "c": op["c"], "w": w, "pos": None, "create": True} for w in op["ws"]]
+    return [op]
+
+
+def accepted_prefix(op):
+    """(primitive calls that take effect, overall outcome) of a compound constructor whose `veto_at`-th pin / wire
+    add is vetoed by the guard listener: everything before the veto has happened, the rest never starts"""
+    prims = expand(op)
+    if op["t"] not in COMPOUND or op.get("veto_at") is None:
+        return prims, "ok"
+    head = 1 if op["t"] in ("createPortPins", "createCableWires") else 0
+    return prims[:head + op["veto_at"]], "value"
+
+
+MODEL_STRIP = ("create", "asset", "deleter", "stored_only", "proxy")
+
+
+def model_apply(drv, op, extra=None):
+    """send an op (or the accepted prefix of a compound constructor) to the model driver; returns
+    {"res": outcome, "events": announcements of everything that took effect, "prims": the primitive calls sent}"""
+    prims, outcome = accepted_prefix(op)
+    events = []
+    res = outcome
+    for pr in prims:
+        msg = {"cmd": "op", "op": {kk: v for kk, v in pr.items() if kk not in MODEL_STRIP}}
+        if extra:
+            msg.update(extra)
+        m = drv.ask(msg)
+        if "error" in m:
+            return m
+        events.extend(m.get("events", []))
+        if m.get("res") != "ok":
+            res = m.get("res")
+            break
+    return {"res": res, "events": events, "prims": prims}
+
+
+def _register_new(W, kind, labels, items, before_ids):
+    new = [x for x in items if id(x) not in before_ids]
+    for lab, x in zip(labels, new):
+        W.reg(kind, lab, x)
+
+
+def execute_compound(W, op):
+    t = op["t"]
+    g = W.get
+    guard = W.guard
+    if guard is not None:
+        guard.arm(op.get("veto_at"))
+    try:
+        if t == "createPins":
+            p = g("port", op["p"])
+            before = {id(x) for x in p.pins}
+            try:
+                p.create_pins(len(op["qs"]))
+            finally:
+                _register_new(W, "pin", op["qs"], list(p.pins), before)
+        elif t == "createWires":
+            c = g("cable", op["c"])
+            before = {id(x) for x in c.wires}
+            try:
+                c.create_wires(len(op["ws"]))
+            finally:
+                _register_new(W, "wire", op["ws"], list(c.wires), before)
+        elif t == "createPortPins":
+            d = g("definition", op["d"])
+            before = {id(x) for x in d.ports}
+            try:
+                d.create_port(pins=len(op["qs"]))
+            finally:
+                new = [x for x in d.ports if id(x) not in before]
+                if new:
+                    W.reg("port", op["p"], new[0])
+                    _register_new(W, "pin", op["qs"], list(new[0].pins), set())
+        elif t == "createCableWires":
+            d = g("definition", op["d"])
+            before = {id(x) for x in d.cables}
+            try:
+                d.create_cable(wires=len(op["ws"]))
+            finally:
+                new = [x for x in d.cables if id(x) not in before]
+                if new:
+                    W.reg("cable", op["c"], new[0])
+                    _register_new(W, "wire", op["ws"], list(new[0].wires), set())
+        return "ok"
+    except Exception as e:  # noqa: BLE001
+        return exc_class(e)
+    finally:
+        if guard is not None:
+            guard.arm(None)
+
+
 def execute(world, op, rng=None, tok=None):
     """Apply one model op through the public API. Returns the outcome class."""
     t = op["t"]
@@ -119,6 +227,14 @@ def execute(world, op, rng=None, tok=None):
     g = W.get
     if op.get("veto"):
         return execute_veto(world, op, tok)
+    if t in COMPOUND:
+        return execute_compound(W, op)
+    spoil = []
+
+    def sp(x):
+        # the caller's own argument container: emptied right after the call (the library must not keep an alias to it)
+        spoil.append(x)
+        return x
     try:
         if t == "addLibrary":
             n = g("netlist", op["n"])
@@ -132,9 +248,9 @@ def execute(world, op, rng=None, tok=None):
             g("netlist", op["n"]).remove_library(g("library", op["l"]))
         elif t == "removeLibrariesFrom":
             xs = [g("library", x) for x in op["xs"]]
-            g("netlist", op["n"]).remove_libraries_from(set(xs) if op.get("asset") else xs)
+            g("netlist", op["n"]).remove_libraries_from(sp(set(xs) if op.get("asset") else xs))
         elif t == "setLibraries":
-            g("netlist", op["n"]).libraries = [g("library", x) for x in op["xs"]]
+            g("netlist", op["n"]).libraries = sp([g("library", x) for x in op["xs"]])
         elif t == "addDefinition":
             l = g("library", op["l"])
             if op.get("create"):
@@ -147,9 +263,9 @@ def execute(world, op, rng=None, tok=None):
             g("library", op["l"]).remove_definition(g("definition", op["d"]))
         elif t == "removeDefinitionsFrom":
             xs = [g("definition", x) for x in op["xs"]]
-            g("library", op["l"]).remove_definitions_from(set(xs) if op.get("asset") else xs)
+            g("library", op["l"]).remove_definitions_from(sp(set(xs) if op.get("asset") else xs))
         elif t == "setDefinitions":
-            g("library", op["l"]).definitions = [g("definition", x) for x in op["xs"]]
+            g("library", op["l"]).definitions = sp([g("definition", x) for x in op["xs"]])
         elif t == "addPort":
             d = g("definition", op["d"])
             if op.get("create"):
@@ -162,9 +278,9 @@ def execute(world, op, rng=None, tok=None):
             g("definition", op["d"]).remove_port(g("port", op["p"]))
         elif t == "removePortsFrom":
             xs = [g("port", x) for x in op["xs"]]
-            g("definition", op["d"]).remove_ports_from(set(xs) if op.get("asset") else xs)
+            g("definition", op["d"]).remove_ports_from(sp(set(xs) if op.get("asset") else xs))
         elif t == "setPorts":
-            g("definition", op["d"]).ports = [g("port", x) for x in op["xs"]]
+            g("definition", op["d"]).ports = sp([g("port", x) for x in op["xs"]])
         elif t == "addCable":
             d = g("definition", op["d"])
             if op.get("create"):
@@ -177,9 +293,9 @@ def execute(world, op, rng=None, tok=None):
             g("definition", op["d"]).remove_cable(g("cable", op["c"]))
         elif t == "removeCablesFrom":
             xs = [g("cable", x) for x in op["xs"]]
-            g("definition", op["d"]).remove_cables_from(set(xs) if op.get("asset") else xs)
+            g("definition", op["d"]).remove_cables_from(sp(set(xs) if op.get("asset") else xs))
         elif t == "setCables":
-            g("definition", op["d"]).cables = [g("cable", x) for x in op["xs"]]
+            g("definition", op["d"]).cables = sp([g("cable", x) for x in op["xs"]])
         elif t == "addChild":
             d = g("definition", op["d"])
             if op.get("pos") is None:
@@ -190,9 +306,9 @@ def execute(world, op, rng=None, tok=None):
             g("definition", op["d"]).remove_child(g("instance", op["i"]))
         elif t == "removeChildrenFrom":
             xs = [g("instance", x) for x in op["xs"]]
-            g("definition", op["d"]).remove_children_from(set(xs) if op.get("asset") else xs)
+            g("definition", op["d"]).remove_children_from(sp(set(xs) if op.get("asset") else xs))
         elif t == "setChildren":
-            g("definition", op["d"]).children = [g("instance", x) for x in op["xs"]]
+            g("definition", op["d"]).children = sp([g("instance", x) for x in op["xs"]])
         elif t == "createChild":
             d = g("definition", op["d"])
             ref = None if op.get("ref") is None else g("definition", op["ref"])
@@ -209,9 +325,9 @@ def execute(world, op, rng=None, tok=None):
             g("port", op["p"]).remove_pin(g("pin", op["q"]))
         elif t == "removePinsFrom":
             xs = [g("pin", x) for x in op["xs"]]
-            g("port", op["p"]).remove_pins_from(set(xs) if op.get("asset") else xs)
+            g("port", op["p"]).remove_pins_from(sp(set(xs) if op.get("asset") else xs))
         elif t == "setPins":
-            g("port", op["p"]).pins = [g("pin", x) for x in op["xs"]]
+            g("port", op["p"]).pins = sp([g("pin", x) for x in op["xs"]])
         elif t == "addWire":
             c = g("cable", op["c"])
             if op.get("create"):
@@ -224,9 +340,9 @@ def execute(world, op, rng=None, tok=None):
             g("cable", op["c"]).remove_wire(g("wire", op["w"]))
         elif t == "removeWiresFrom":
             xs = [g("wire", x) for x in op["xs"]]
-            g("cable", op["c"]).remove_wires_from(set(xs) if op.get("asset") else xs)
+            g("cable", op["c"]).remove_wires_from(sp(set(xs) if op.get("asset") else xs))
         elif t == "setWires":
-            g("cable", op["c"]).wires = [g("wire", x) for x in op["xs"]]
+            g("cable", op["c"]).wires = sp([g("wire", x) for x in op["xs"]])
         elif t == "connectInner":
             if op.get("pos") is None:
                 g("wire", op["w"]).connect_pin(g("pin", op["q"]))
@@ -242,9 +358,9 @@ def execute(world, op, rng=None, tok=None):
             g("wire", op["w"]).disconnect_pin(pinref_obj(W, rng, op["r"]))
         elif t == "disconnectFrom":
             xs = [pinref_obj(W, rng, r) for r in op["rs"]]
-            g("wire", op["w"]).disconnect_pins_from(set(xs) if op.get("asset") else xs)
+            g("wire", op["w"]).disconnect_pins_from(sp(set(xs) if op.get("asset") else xs))
         elif t == "setWirePins":
-            g("wire", op["w"]).pins = [pinref_obj(W, None if op.get("stored_only") else rng, r, bool(op.get("proxy"))) for r in op["rs"]]
+            g("wire", op["w"]).pins = sp([pinref_obj(W, None if op.get("stored_only") else rng, r, bool(op.get("proxy"))) for r in op["rs"]])
         elif t == "setRef":
             inst = g("instance", op["i"])
             if op.get("d") is None:
@@ -268,6 +384,26 @@ def execute(world, op, rng=None, tok=None):
         if isinstance(e, RuntimeError) and str(e).startswith("executor:"):
             raise
         return exc_class(e)
+    finally:
+        for x in spoil:
+            x.clear()
+
+
+def observe(world):
+    """what any client may do between two edits without changing anything: hash every stored outer pin, compare it
+    with a proxy for the same (instance, inner pin), iterate the public views. (Python-level caches that go
+    stale on a later edit then show up as a wrong answer of that edit.)"""
+    from spydrnet.ir import OuterPin
+    n = 0
+    for inst in list(world.objs["instance"].values()):
+        for ip, op_ in list(inst._pins.items()):
+            proxy = OuterPin.from_instance_and_inner_pin(inst, ip)
+            n += (hash(op_) == hash(proxy)) + (op_ == proxy)
+    for w in list(world.objs["wire"].values()):
+        n += len(set(w.pins))
+    for d in list(world.objs["definition"].values()):
+        n += len(list(d.references)) + int(d.is_leaf())
+    return n
 
 
 _BACK = {"library": "_netlist", "definition": "_library", "port": "_definition", "cable": "_definition", "instance": "_parent"}
